@@ -19,7 +19,7 @@ CHECKS = {
         technique="TLC model checking of View.tla against SbeImage.tla (StepRefines, EncodeRefines, MarginsIntact) + replay of every encode transition into sbeppc-generated accessors",
         text="The operational layer (addresses derived from bytes read in the buffer) is model-checked against the denotational SBE image for every explored (schema, message, shape); "
              "every transition of the in-order encoding script is replayed on the real generated classes: pre-buffer injected, real header filler / setter / group header / data assignment (through every API form ViewEmit.tla DataForms lists: assign_range, assign, resize+set, push_back, insert, clear, assign_string, ...) called, whole region incl. margins compared.",
-        note="Scope: schema catalogue (tools/catalogue.py: all primitives, named/optional/array/enum/set/composite/ref/constant members, custom offsets, explicit blockLength, nested groups, data, 9 header layouts, LE+BE) + schemas BUILT by SchemaBuild.tla in TLC simulation (seeded; judged valid by Rules.tla) x seeded shapes; group headers also with counts at the limits of the numInGroup type (ViewEmit.tla BigFills); trusts TLC, compilers, little-endian host.",
+        note="Scope: schema catalogue (tools/catalogue.py: all primitives, named/optional/array/enum/set/composite/ref/constant members, custom offsets, explicit blockLength, nested groups, data, 9 header layouts, LE+BE) + schemas BUILT by SchemaBuild.tla in TLC simulation (seeded; judged valid by Rules.tla) + the repository's OWN schemas (test/schemas, benchmark, naming_test read by tools/xmlimport.py; quick: seeded sample of messages, thorough: all) x seeded shapes; group headers also with counts at the limits of the numInGroup type (ViewEmit.tla BigFills); trusts TLC, compilers, little-endian host.",
         design="5/C01"),
     "C02": dict(
         category="model_checking",
@@ -82,7 +82,7 @@ CHECKS = {
         category="model_checking",
         technique="TLC model checking of Checked.tla (Touched/Req/Pre footprints from the operational layer, outcome relation) + replay of every (image, view length n, operation) vector in checked builds with guard pages on both sides",
         text="Every accessor kind (leaf get/set, composite/array views and 11 array ops, header access/fill, group size/resize/begin/end/[]/front/back/iterator steps, nested iteration, 25 data operations incl. element counts beyond the length type, size_bytes, visit, five cursor wrappers) x view lengths n x hostile header variants: "
-             "must_assert / must_ok / either from the spec; violations are silent out-of-view access (guard fault without handler) and spurious handler calls.",
+             "must_assert / must_ok / either from the spec; violations are silent out-of-view access (guard fault without handler) and spurious handler calls. Hostile values include the maxima of 8..64-bit <data> length prefixes; schemas: view catalogue, schemas built by SchemaBuild.tla, the repository's own schemas.",
         note="Where the documentation is silent about whole-object checks the spec allows both outcomes. Observation (not alarmed): assign_range/assign(first,last) of <data> copy before the size check fires.",
         design="5/C10, Appendix B"),
     "C11": dict(
@@ -107,13 +107,13 @@ CHECKS = {
     "C18": dict(
         category="translation_validation",
         technique="TLC evaluates ExpectedTraits(S) (Traits.tla over Sbe.tla layout); a generated TU prints the real trait table by named paths and by walking tag lists; per-(entity, trait) diff",
-        text="Every documented trait of every entity (835 entities quick / 1683 thorough), children tag lists in schema order, tag-kind predicates, value_type/traits_tag round trips, across schemas x compilers/standards.",
+        text="Every documented trait of every entity (835 entities quick / 1683 thorough), children tag lists in schema order, tag-kind predicates, value_type/traits_tag round trips, across schemas (catalogue, header layouts, literal / text / control-character schemas, schemas built by SchemaBuild.tla, the repository's own test / benchmark / naming schemas) x compilers/standards.",
         note="Traits on which the documentation is silent are left out (listed in DESIGN.md).",
         design="5/C18"),
     "C20": dict(
         category="fault_enumeration",
         technique="TLC model checking of Sbeppc.tla (process + I/O plan + single fault) + fault enumeration of the real sbeppc under an LD_PRELOAD shim, every run validated by SbeppcTrace.tla",
-        text="Every k-th mkdir/open/write/rename/unlink (thorough: also close and input-file calls) of 3 schemas failing with ENOSPC/EACCES/EIO or writing short; trace (phase markers, syscalls, exit, diagnostic, on-disk state vs fault-free reference) validated against the spec; re-runs into fresh/populated/stale directories and from differently spelled / differently long paths byte-identical (incl. a schema with many cross references). The model admits files written in place and files written under a temporary name and renamed into place (both strategies model-checked).",
+        text="Every k-th mkdir/open/write/rename/unlink (thorough: also close and input-file calls) of 3 schemas failing with ENOSPC/EACCES/EIO or writing short; trace (phase markers, syscalls, exit, diagnostic, on-disk state vs fault-free reference) validated against the spec; re-runs into fresh/populated/stale directories and from differently spelled / differently long paths byte-identical (incl. a schema with many cross references). The model admits files written in place and files written under a temporary name and renamed into place (both strategies model-checked). What 'every generated file' is comes from OutTree.tla (the tree doc/sbeppc.md promises as a function of the schema's names, --schema-name and --inject-include), compared by TLC with what every reference run and three command-line variants left behind.",
         note="close() failures recorded, not alarmed (property does not list them). Shim interposes the libc calls libstdc++ makes on this system.",
         design="5/C20"),
     "C13": dict(
